@@ -251,7 +251,7 @@ def gen(repo):
          "(* RE_EXTENT_DESCRIPTOR: access modes " + "|".join(modes) + " ; types " + "|".join(types) + " *)",
          f"Definition vmdk_re_access_modes : list (list Z) := {cps_list(modes)}.",
          f"Definition vmdk_re_types : list (list Z) := {cps_list(types)}.",
-         "(* the pattern without whitespace, the two alternations replaced by '@': " + skeleton.replace("*)", "* )") + " *)",
+         "(* the pattern without whitespace, the two alternations replaced by '@': " + skeleton.replace("*)", "* )").replace('"', "'") + " *)",
          f"Definition vmdk_re_skeleton : list Z := {cps(skeleton)}.",
          "(* DiskDescriptor.parse: line.startswith((...)) *)",
          f"Definition vmdk_extent_prefixes : list (list Z) := {cps_list(prefixes)}.",
